@@ -138,6 +138,7 @@ class SymEval:
                  self_types: Optional[Dict[str, str]] = None):
         self.model = model
         self.inline = set(inline)  # method / function simple names or qualnames to inline
+        self.loop_breaks: Dict[int, List] = {}  # loop uid -> [(guard, ast node)] of `break` statements (early exits)
         self.helper_stack: List[str] = []  # helpers (functions not in the frozen API table) being analysed inline
         self.max_depth = max_depth
         self.inline_properties = inline_properties
@@ -343,6 +344,8 @@ class SymEval:
         self.emit("assert", frame.func, c, st, frame)
 
     def st_Break(self, st, frame):
+        if self.loop_stack:
+            self.loop_breaks.setdefault(self.loop_stack[-1], []).append((self.live, st))
         self.live = T.FALSE
 
     def st_Continue(self, st, frame):
@@ -1251,13 +1254,16 @@ class SymEval:
                 "list", "tuple") and len(args[0][1]) >= 2:
             return T.mk_max(args[0][1]) if name.endswith("max") else T.mk_min(args[0][1])
         if name in TRANSPARENT_CASTS and len(args) >= 1:
+            dt = dict(kwargs).get("dtype")
+            if dt is not None and not _fixed_dtype(dt):
+                return None  # a cast to a computed dtype (result_type(...), promote_types(...)) can truncate: keep it visible
             if name == "round":
                 # only the repository's micro-second rounding idiom round(x, 6) is transparent (H4)
                 nd = T.const_value(args[1]) if len(args) > 1 else None
                 if nd is None or nd < 6:
                     return None
             return args[0]
-        if method == "astype" and recv is not None:
+        if method == "astype" and recv is not None and (not args or _fixed_dtype(args[0])):
             return recv
         if name in ("jax.numpy.logical_or", "numpy.logical_or") and len(args) == 2:
             return T.mk_or(args)
@@ -1350,6 +1356,19 @@ def canon_iter(it: Term):
             if isinstance(f, tuple) and f[0] == "attr" and f[2] == meth:
                 return ("call", ("attr", f[1], "items"), (), (), it[4]), proj
     return it, None
+
+
+def _fixed_dtype(t: Term) -> bool:
+    """dtype arguments that the transparent-cast assumption (H4) covers: literal dtypes and the dtype-restoration idiom x.dtype."""
+    if t[0] == "sym":
+        return True  # float, int, jax.numpy.float32, numpy.int32, a parameter named dtype, x.dtype (collapsed attribute chain)
+    if t[0] == "attr" and t[2] == "dtype":
+        return True
+    if t[0] == "const":
+        return True
+    if t[0] == "call" and T.call_name(t) in ("jax.dtypes.canonicalize_dtype", "numpy.dtype", "jax.numpy.dtype") and len(t[2]) == 1:
+        return _fixed_dtype(t[2][0])
+    return False
 
 
 def _acc_join(a: Term, b: Term) -> Optional[Term]:
